@@ -1,19 +1,23 @@
 use crate::core::Monitor;
 
+pub mod c01;
 pub mod c02;
 pub mod c03;
 pub mod c06;
 pub mod c07;
+pub mod c08;
 pub mod c14;
 pub mod c15;
 pub mod c18;
 
 pub fn get(id: &str) -> Option<Box<dyn Monitor>> {
     match id {
+        "C01" => Some(Box::new(c01::C01)),
         "C02" => Some(Box::new(c02::C02)),
         "C03" => Some(Box::new(c03::C03)),
         "C06" => Some(Box::new(c06::C06)),
         "C07" => Some(Box::new(c07::C07)),
+        "C08" => Some(Box::new(c08::C08)),
         "C14" => Some(Box::new(c14::C14)),
         "C15" => Some(Box::new(c15::C15)),
         "C18" => Some(Box::new(c18::C18)),
